@@ -380,6 +380,7 @@ pub fn run_c01(tier: Tier) -> i32 {
         del("T1", Some(eq("K", i(1)))),
         Op::WriteStream { name: "s1".into(), len: 3, seed: 1 },
         Op::WriteStream { name: "Big".into(), len: big, seed: 7 },
+        Op::WriteStreamDrop { name: "s2".into(), len: 20, seed: 4 },
         Op::RemoveStream { name: "s1".into() },
         Op::Summary(SumOp::SetAuthor("Jane".into())),
         Op::Summary(SumOp::ClearTitle),
@@ -483,7 +484,7 @@ pub fn summary_alphabet(tier: Tier) -> Vec<Op> {
         SetComments("abc".into()),
         SetSubject("\u{416}".into()),
         SetArch("x64".into()),
-        SetLanguages(vec![1033]),
+        SetLanguages(vec![1033, 0x8409, 65535]),
         ClearArch,
         ClearLanguages,
         SetWordCount(2),
@@ -606,6 +607,8 @@ pub fn run_c11(tier: Tier) -> i32 {
     alphabet.push(ins("T", vec![vec![i(1), s("x")]]));
     alphabet.push(Op::DropTable { name: "T".into() });
     alphabet.push(Op::RemoveSignature);
+    alphabet.push(Op::WriteStreamDrop { name: "x".into(), len: 30, seed: 2 });
+    alphabet.push(Op::Flush);
     if tier.thorough() {
         alphabet.push(Op::WriteStream { name: "x".into(), len: 9000, seed: 3 });
         alphabet.push(Op::WriteStream { name: "a".into(), len: 4096, seed: 4 });
@@ -698,7 +701,16 @@ pub fn signed_seed() -> Vec<u8> {
 
 fn c01_strings(cp: i32) -> Vec<(&'static str, String)> {
     let rt = |s: &str| crate::c14::ref_decode(cp, &crate::c14::ref_encode(cp, s)) == s;
-    let mut out: Vec<(&'static str, String)> = vec![("ascii", "plain".into()), ("empty", "".into()), ("over-64KiB", "L".repeat(70000))];
+    let mut out: Vec<(&'static str, String)> = vec![
+        ("ascii", "plain".into()),
+        ("empty", "".into()),
+        ("over-64KiB", "L".repeat(70000)),
+        // both sides of the 16-bit length boundary of a pool entry
+        ("65534-bytes", "m".repeat(65534)),
+        ("65535-bytes", "n".repeat(65535)),
+        ("65536-bytes", "o".repeat(65536)),
+        ("131072-bytes", "p".repeat(131072)),
+    ];
     let cands = ['\u{e9}', '\u{416}', '\u{3a9}', '\u{142}', '\u{5d0}', '\u{627}', '\u{e01}', '\u{20ac}', '\u{3042}', '\u{4e2d}', '\u{d55c}', '\u{ff76}'];
     let mut one = false;
     let mut two = false;
@@ -733,7 +745,7 @@ pub fn c01_config_product(tier: Tier, rep: &mut Report) -> u64 {
     for ptype in 0..3u8 {
         for cp in &pages {
             for (label, s) in c01_strings(*cp) {
-                if label.starts_with("over-64KiB") && !(tier.thorough() || ptype == 0) {
+                if (label.starts_with("over-64KiB") || label.ends_with("-bytes")) && !(tier.thorough() || (ptype == 0 && [65001, 1252, 932].contains(cp))) {
                     continue;
                 }
                 cases.push((ptype, *cp, label, s));
